@@ -12,7 +12,7 @@ from vf.engine import Violation, InvalidCase, quiesce
 from vf.fixtures import check, wone_of
 
 PROPERTY = "C16"
-CASE_TIMEOUT_S = 20      # a case normally takes < 0.2 s; see DESIGN.md 2.9 (hang handling)
+CASE_TIMEOUT_S = 10      # a case normally takes < 0.2 s; see DESIGN.md 2.9 (hang handling)
 BUDGET = {"quick": 600, "thorough": 1500}
 RULE = ("1-6 parameter combinations (grid a x b, or a alone), each with its own tuple of per-repetition scores served by a "
         "fixture model on its k-th instantiation (so a reused model or a skipped repetition shows); scores: ints of any "
@@ -244,7 +244,7 @@ def strategy(tier):
             scores[j] = list(scores[i])
         procs = draw(st.sampled_from([1, 1, 1, 1, 1, 1, 1, 2, 3, maxproc]))
         complete_at = draw(st.sampled_from([0, 0, 1, 2, None]))
-        max_ts = draw(st.sampled_from([None, 1, 2, 3])) if complete_at is not None else draw(st.integers(1, 3))
+        max_ts = draw(st.sampled_from([None, 0, 1, 2, 3])) if complete_at is not None else draw(st.integers(0, 3))
         return {"na": na, "nb": nb, "float": is_float, "mode": mode, "reps": reps, "scores": scores, "processes": procs,
                 "plist": draw(st.booleans()), "a_list": draw(st.booleans()), "b_list": draw(st.booleans()),
                 "complete_at": complete_at, "max_timesteps": max_ts,
